@@ -90,7 +90,7 @@ def gen_io(rng, tier):
         cpds.append({"child": v, "parents": ps, "table": [[rs(cols[j][i]) for j in range(ncols)] for i in range(card[v])]})
     edges = sorted([p, c["child"]] for c in cpds for p in c["parents"])
     return {"nodes": names, "edges": edges, "card": card, "labels": labels, "cpds": cpds, "fmt": rng.choice(["bif", "xmlbif", "uai", "net"]),
-            "via": rng.choice(["class", "class", "file", "saveload"]), "shape": shape}
+            "via": rng.choice(["class", "class", "file", "saveload", "save_reader", "writer_load"]), "shape": shape}
 
 
 def gen_big(rng, tier):
@@ -117,6 +117,21 @@ def roundtrip(bn, fmt, via):
             bn.save(path, filetype=fmt)
             kw = {"n_jobs": 1} if fmt == "bif" else {}
             return BayesianNetwork.load(path, filetype=fmt, **kw)
+        if via in ("save_reader", "writer_load") and fmt in ("bif", "xmlbif", "uai"):
+            # the convenience methods (format taken from the file extension) must produce / accept what the reader and writer
+            # classes accept / produce
+            readers = {"bif": lambda p_: BIFReader(p_, n_jobs=1), "xmlbif": XMLBIFReader, "uai": UAIReader}
+            if via == "save_reader":
+                bn.save(path)
+                return readers[fmt](path).get_model()
+            if fmt == "bif":
+                BIFWriter(bn).write_bif(path)
+            elif fmt == "xmlbif":
+                XMLBIFWriter(bn).write_xmlbif(path)
+            else:
+                UAIWriter(bn).write_uai(path)
+            kw = {"n_jobs": 1} if fmt == "bif" else {}
+            return BayesianNetwork.load(path, **kw)
         if fmt == "bif":
             if via == "class":
                 return BIFReader(string=str(BIFWriter(bn)), n_jobs=1).get_model()
